@@ -62,6 +62,13 @@ for prop in ["C01", "C02", "C04", "C06", "C07", "C12", "C13", "C14", "C16"]:
         st = json.load(open(sp))
         if any(k.startswith("HARNESS-PANIC") for k in st.get("calls", {})):
             alarms.add("ALL:harness-panic")
+g = subprocess.run([HBIN, "bfs", "--scope", "all", "--max-states", "700", "--threads", "4", "--out", work],
+                   stdout=subprocess.PIPE, stderr=subprocess.STDOUT, text=True)
+if g.returncode != 0:
+    alarms.add("ALL:harness-crash-bfs")
+for f in sorted(os.listdir(work)):
+    if f.startswith("trace_bfs"):
+        traces.append(os.path.join(work, f))
 procs = []
 for tp in traces:
     vp = tp + ".verdict"
